@@ -15,7 +15,7 @@ fn snapshot(state: &BlockchainSyncState) -> Vec<(PeerIndex, Vec<(BlockId, u8, u8
 
 /// C16 safety clauses on the real scheduler, over random operation sequences (small universe of peers and hashes):
 /// in-flight ≤ batch, never the same block twice in a peer's queue, requests in non-decreasing height order and
-/// only for entries that were Queued, identity of entries kept, bounded retries.
+/// only for entries that were Queued or due for a retry, identity of entries kept, bounded retries.
 #[tokio::test]
 #[serial_test::serial]
 async fn scheduler_contract() {
@@ -52,7 +52,8 @@ async fn scheduler_contract() {
                         for (h, id) in v.iter() {
                             if in_flight.iter().any(|(p2, h2, _id2)| p2 == p && h2 == h) { witness(format!("run {} peer {}: block {}-{} requested while already in flight: {:?}", run, p, id, h[0], trace)); }
                             let old = before.iter().find(|(bp, _)| bp == p).map(|(_, q)| q.clone()).unwrap_or_default();
-                            if !old.iter().any(|(bid, bh, st, _)| bid == id && *bh == h[0] && *st == 0) { witness(format!("run {} peer {}: requested {}-{} was not Queued before: {:?}", run, p, id, h[0], trace)); }
+                            // (a request goes out for an entry that was waiting in line or is due for a retry: never for one in flight or fetched)
+                            if !old.iter().any(|(bid, bh, st, _)| bid == id && *bh == h[0] && (*st == 0 || *st == 3)) { witness(format!("run {} peer {}: requested {}-{} was neither Queued nor Failed before: {:?}", run, p, id, h[0], trace)); }
                             in_flight.push((*p, *h, *id));
                         }
                     }
@@ -172,3 +173,875 @@ async fn hash_announced_under_several_ids_is_requested_once() {
         witness(format!("peer 1 announced one block hash under 12 different ids while its fetch was in flight: the block was requested {} times from that peer and has {} entries in its queue (batch size 10)", requests, queued));
     }
 }
+
+/// C16: at most batch-size requests are outstanding per peer — also when blocks a peer was asked for arrive through another peer (auditor's scenario, round 5; its own recording InterfaceIO)
+#[allow(dead_code, unused)]
+    /// support for the audit demo below: an I/O boundary that records every block-fetch request the
+    /// routing layer hands to it (the harness' TestIOHandler panics with todo!() on fetch_block_from_peer),
+    /// and a routing thread (from NodeTester, batch size 10) whose peers can serve blocks.
+    mod audit_f16_quota_support {
+        use crate::core::consensus::peers::peer::{Peer, PeerStatus};
+        use crate::core::consensus::peers::peer_service::PeerService;
+        use crate::core::consensus::wallet::Wallet;
+        use crate::core::defs::{BlockId, PeerIndex, SaitoHash};
+        use crate::core::io::interface_io::{InterfaceEvent, InterfaceIO};
+        use crate::core::io::network_event::NetworkEvent;
+        use crate::core::msg::message::Message;
+        use crate::core::process::process_event::ProcessEvent;
+        use crate::core::routing_thread::RoutingEvent;
+        use crate::core::util::test::node_tester::test::NodeTester;
+        use async_trait::async_trait;
+        use std::io::Error;
+        use crate::core::defs::Timestamp;
+        use crate::core::process::keep_time::{KeepTime, Timer};
+        use std::sync::atomic::{AtomicU64, Ordering};
+        use std::sync::{Arc, Mutex};
+        use std::time::Duration;
+
+        /// a clock the test sets by hand (NodeTester's default clock runs 10_000 times faster than real time)
+        #[derive(Clone)]
+        pub struct ManualClock(pub Arc<AtomicU64>);
+        impl KeepTime for ManualClock {
+            fn get_timestamp_in_ms(&self) -> Timestamp {
+                self.0.load(Ordering::SeqCst)
+            }
+        }
+
+        #[derive(Debug, Clone, Default)]
+        pub struct RecordingIo {
+            pub requests: Arc<Mutex<Vec<(PeerIndex, SaitoHash, BlockId)>>>,
+            pub disconnects: Arc<Mutex<Vec<PeerIndex>>>,
+        }
+
+        #[async_trait]
+        impl InterfaceIO for RecordingIo {
+            async fn send_message(&self, _peer_index: u64, _buffer: &[u8]) -> Result<(), Error> {
+                Ok(())
+            }
+            async fn send_message_to_all(
+                &self,
+                _buffer: &[u8],
+                _peer_exceptions: Vec<u64>,
+            ) -> Result<(), Error> {
+                Ok(())
+            }
+            async fn connect_to_peer(
+                &mut self,
+                _url: String,
+                _peer_index: PeerIndex,
+            ) -> Result<(), Error> {
+                Ok(())
+            }
+            async fn disconnect_from_peer(&self, peer_index: u64) -> Result<(), Error> {
+                self.disconnects.lock().unwrap().push(peer_index);
+                Ok(())
+            }
+            async fn fetch_block_from_peer(
+                &self,
+                block_hash: SaitoHash,
+                peer_index: u64,
+                _url: &str,
+                block_id: BlockId,
+            ) -> Result<(), Error> {
+                self.requests
+                    .lock()
+                    .unwrap()
+                    .push((peer_index, block_hash, block_id));
+                Ok(())
+            }
+            async fn write_value(&self, _key: &str, _value: &[u8]) -> Result<(), Error> {
+                Ok(())
+            }
+            async fn append_value(&mut self, _key: &str, _value: &[u8]) -> Result<(), Error> {
+                Ok(())
+            }
+            async fn flush_data(&mut self, _key: &str) -> Result<(), Error> {
+                Ok(())
+            }
+            async fn read_value(&self, _key: &str) -> Result<Vec<u8>, Error> {
+                Ok(vec![])
+            }
+            async fn load_block_file_list(&self) -> Result<Vec<String>, Error> {
+                Ok(vec![])
+            }
+            async fn is_existing_file(&self, _key: &str) -> bool {
+                false
+            }
+            async fn remove_value(&self, _key: &str) -> Result<(), Error> {
+                Ok(())
+            }
+            fn get_block_dir(&self) -> String {
+                "./data/blocks/".to_string()
+            }
+            fn get_checkpoint_dir(&self) -> String {
+                "data/checkpoints/".to_string()
+            }
+            fn ensure_block_directory_exists(&self, _block_dir_path: &str) -> std::io::Result<()> {
+                Ok(())
+            }
+            async fn process_api_call(&self, _b: Vec<u8>, _i: u32, _p: PeerIndex) {}
+            async fn process_api_success(&self, _b: Vec<u8>, _i: u32, _p: PeerIndex) {}
+            async fn process_api_error(&self, _b: Vec<u8>, _i: u32, _p: PeerIndex) {}
+            fn send_interface_event(&self, _event: InterfaceEvent) {}
+            async fn save_wallet(&self, _wallet: &mut Wallet) -> Result<(), Error> {
+                Ok(())
+            }
+            async fn load_wallet(&self, _wallet: &mut Wallet) -> Result<(), Error> {
+                Ok(())
+            }
+            fn get_my_services(&self) -> Vec<PeerService> {
+                vec![]
+            }
+        }
+
+        pub struct Node {
+            pub tester: NodeTester,
+            pub io: RecordingIo,
+        }
+
+        impl Node {
+            /// a node whose routing thread talks to the recording I/O and knows the given connected peers,
+            /// each with a block fetch url
+            pub async fn new(peer_indices: &[PeerIndex]) -> Node {
+                Node::with_clock(peer_indices, None).await
+            }
+            pub async fn with_clock(peer_indices: &[PeerIndex], clock: Option<ManualClock>) -> Node {
+                let timer = clock.map(|clock| Timer {
+                    time_reader: Arc::new(clock),
+                    hasten_multiplier: 1,
+                    start_time: 0,
+                });
+                let mut tester = NodeTester::new(100, None, timer);
+                let io = RecordingIo::default();
+                tester.routing_thread.network.io_interface = Box::new(io.clone());
+                {
+                    let mut peers = tester.routing_thread.network.peer_lock.write().await;
+                    for index in peer_indices {
+                        let mut peer = Peer::new(*index);
+                        peer.peer_status = PeerStatus::Connected;
+                        peer.block_fetch_url = format!("http://peer{}", index);
+                        peers.index_to_peers.insert(*index, peer);
+                    }
+                }
+                Node { tester, io }
+            }
+            /// the peer announces a block: a BlockHeaderHash message arrives from it
+            pub async fn announce(&mut self, peer_index: PeerIndex, hash: SaitoHash, id: BlockId) {
+                self.tester
+                    .routing_thread
+                    .process_network_event(NetworkEvent::IncomingNetworkMessage {
+                        peer_index,
+                        buffer: Message::BlockHeaderHash(hash, id).serialize(),
+                    })
+                    .await;
+            }
+            /// the I/O layer reports that the peer answered the fetch of this block
+            pub async fn fetched(&mut self, peer_index: PeerIndex, hash: SaitoHash, id: BlockId) {
+                self.tester
+                    .routing_thread
+                    .process_network_event(NetworkEvent::BlockFetched {
+                        block_hash: hash,
+                        block_id: id,
+                        peer_index,
+                        buffer: vec![0; 8],
+                    })
+                    .await;
+            }
+            /// the I/O layer reports that the fetch of this block from the peer failed
+            pub async fn failed(&mut self, peer_index: PeerIndex, hash: SaitoHash, id: BlockId) {
+                self.tester
+                    .routing_thread
+                    .process_network_event(NetworkEvent::BlockFetchFailed {
+                        block_hash: hash,
+                        peer_index,
+                        block_id: id,
+                    })
+                    .await;
+            }
+            /// the consensus thread reports that the block is on the chain now
+            pub async fn chain_has(&mut self, hash: SaitoHash) {
+                self.tester
+                    .routing_thread
+                    .process_event(RoutingEvent::BlockchainUpdated(hash))
+                    .await;
+            }
+            /// the 2 s timer of the routing thread fires: one more selection round
+            pub async fn timer_round(&mut self) {
+                self.tester
+                    .routing_thread
+                    .process_timer_event(Duration::from_secs(2))
+                    .await;
+            }
+            /// the block ids of the fetch requests handed to the I/O layer for this peer, in order
+            pub fn requested_ids(&self, peer_index: PeerIndex) -> Vec<BlockId> {
+                self.io
+                    .requests
+                    .lock()
+                    .unwrap()
+                    .iter()
+                    .filter(|(p, _, _)| *p == peer_index)
+                    .map(|(_, _, id)| *id)
+                    .collect()
+            }
+        }
+
+        /// the hash of the demo block with this id on the announced fork
+        pub fn h(id: u64) -> SaitoHash {
+            let mut hash = [0u8; 32];
+            hash[0] = 0xF1;
+            hash[24..32].copy_from_slice(&id.to_be_bytes());
+            hash
+        }
+    }
+
+    /// C16, quota clause: "for each peer the number of block fetches in flight never exceeds the configured
+    /// batch size". Two peers announce the same 20 blocks; the node asks each of them for the first 10
+    /// (batch size 10). The 10 blocks then reach the chain by another route (peer 1 is fast, peer 2 has not
+    /// answered a single request). BlockchainUpdated -> remove_entry deletes peer 2's entries although they
+    /// are in state Fetching, the quota of peer 2 is free again, and 10 more requests go out to peer 2 on
+    /// top of the 10 it has not answered.
+    #[tokio::test]
+    #[serial_test::serial]
+    async fn in_flight_requests_per_peer_stay_within_the_batch_when_blocks_arrive_elsewhere() {
+        use audit_f16_quota_support::{h, Node};
+        const BATCH: usize = 10; // NodeTester builds BlockchainSyncState::new(10)
+
+        // control: without the chain update, peer 2 never has more than 10 requests outstanding
+        {
+            let mut node = Node::new(&[1, 2]).await;
+            for id in 1..=20u64 {
+                node.announce(1, h(id), id).await;
+                node.announce(2, h(id), id).await;
+            }
+            for _ in 0..5 {
+                node.timer_round().await;
+            }
+            assert_eq!(node.requested_ids(2), (1..=10u64).collect::<Vec<_>>());
+        }
+
+        let mut node = Node::new(&[1, 2]).await;
+        for id in 1..=20u64 {
+            node.announce(1, h(id), id).await;
+            node.announce(2, h(id), id).await;
+        }
+        // setup sanity: each peer was asked for blocks 1..=10, in height order, nothing else
+        assert_eq!(node.requested_ids(1), (1..=10u64).collect::<Vec<_>>());
+        assert_eq!(node.requested_ids(2), (1..=10u64).collect::<Vec<_>>());
+
+        // peer 1 answers its 10 requests and the blocks reach the chain; peer 2 answers nothing:
+        // no BlockFetched and no BlockFetchFailed is delivered for peer 2 in this test
+        for id in 1..=10u64 {
+            node.fetched(1, h(id), id).await;
+            node.chain_has(h(id)).await;
+        }
+
+        let answered_by_peer_2 = 0usize;
+        let requested_from_peer_2 = node.requested_ids(2);
+        let in_flight_at_peer_2 = requested_from_peer_2.len() - answered_by_peer_2;
+        assert!(
+            in_flight_at_peer_2 <= BATCH,
+            "peer 2 has {} block fetches in flight (requested ids {:?}, answered 0) with batch size {}: remove_entry dropped its 10 Fetching entries when the blocks arrived via peer 1, so the quota was handed out a second time",
+            in_flight_at_peer_2,
+            requested_from_peer_2,
+            BATCH
+        );
+    }
+
+
+/// C16: a reply that is dropped (unknown peer, invalid-block limit) does not leave its request in flight for ever (auditor's scenario, round 5; its own recording InterfaceIO)
+#[allow(dead_code, unused)]
+    /// support for the audit demo below: an I/O boundary that records every block-fetch request the
+    /// routing layer hands to it (the harness' TestIOHandler panics with todo!() on fetch_block_from_peer),
+    /// and a routing thread (from NodeTester, batch size 10) whose peers can serve blocks.
+    mod audit_f16_zombie_support {
+        use crate::core::consensus::peers::peer::{Peer, PeerStatus};
+        use crate::core::consensus::peers::peer_service::PeerService;
+        use crate::core::consensus::wallet::Wallet;
+        use crate::core::defs::{BlockId, PeerIndex, SaitoHash};
+        use crate::core::io::interface_io::{InterfaceEvent, InterfaceIO};
+        use crate::core::io::network_event::NetworkEvent;
+        use crate::core::msg::message::Message;
+        use crate::core::process::process_event::ProcessEvent;
+        use crate::core::routing_thread::RoutingEvent;
+        use crate::core::util::test::node_tester::test::NodeTester;
+        use async_trait::async_trait;
+        use std::io::Error;
+        use crate::core::defs::Timestamp;
+        use crate::core::process::keep_time::{KeepTime, Timer};
+        use std::sync::atomic::{AtomicU64, Ordering};
+        use std::sync::{Arc, Mutex};
+        use std::time::Duration;
+
+        /// a clock the test sets by hand (NodeTester's default clock runs 10_000 times faster than real time)
+        #[derive(Clone)]
+        pub struct ManualClock(pub Arc<AtomicU64>);
+        impl KeepTime for ManualClock {
+            fn get_timestamp_in_ms(&self) -> Timestamp {
+                self.0.load(Ordering::SeqCst)
+            }
+        }
+
+        #[derive(Debug, Clone, Default)]
+        pub struct RecordingIo {
+            pub requests: Arc<Mutex<Vec<(PeerIndex, SaitoHash, BlockId)>>>,
+            pub disconnects: Arc<Mutex<Vec<PeerIndex>>>,
+        }
+
+        #[async_trait]
+        impl InterfaceIO for RecordingIo {
+            async fn send_message(&self, _peer_index: u64, _buffer: &[u8]) -> Result<(), Error> {
+                Ok(())
+            }
+            async fn send_message_to_all(
+                &self,
+                _buffer: &[u8],
+                _peer_exceptions: Vec<u64>,
+            ) -> Result<(), Error> {
+                Ok(())
+            }
+            async fn connect_to_peer(
+                &mut self,
+                _url: String,
+                _peer_index: PeerIndex,
+            ) -> Result<(), Error> {
+                Ok(())
+            }
+            async fn disconnect_from_peer(&self, peer_index: u64) -> Result<(), Error> {
+                self.disconnects.lock().unwrap().push(peer_index);
+                Ok(())
+            }
+            async fn fetch_block_from_peer(
+                &self,
+                block_hash: SaitoHash,
+                peer_index: u64,
+                _url: &str,
+                block_id: BlockId,
+            ) -> Result<(), Error> {
+                self.requests
+                    .lock()
+                    .unwrap()
+                    .push((peer_index, block_hash, block_id));
+                Ok(())
+            }
+            async fn write_value(&self, _key: &str, _value: &[u8]) -> Result<(), Error> {
+                Ok(())
+            }
+            async fn append_value(&mut self, _key: &str, _value: &[u8]) -> Result<(), Error> {
+                Ok(())
+            }
+            async fn flush_data(&mut self, _key: &str) -> Result<(), Error> {
+                Ok(())
+            }
+            async fn read_value(&self, _key: &str) -> Result<Vec<u8>, Error> {
+                Ok(vec![])
+            }
+            async fn load_block_file_list(&self) -> Result<Vec<String>, Error> {
+                Ok(vec![])
+            }
+            async fn is_existing_file(&self, _key: &str) -> bool {
+                false
+            }
+            async fn remove_value(&self, _key: &str) -> Result<(), Error> {
+                Ok(())
+            }
+            fn get_block_dir(&self) -> String {
+                "./data/blocks/".to_string()
+            }
+            fn get_checkpoint_dir(&self) -> String {
+                "data/checkpoints/".to_string()
+            }
+            fn ensure_block_directory_exists(&self, _block_dir_path: &str) -> std::io::Result<()> {
+                Ok(())
+            }
+            async fn process_api_call(&self, _b: Vec<u8>, _i: u32, _p: PeerIndex) {}
+            async fn process_api_success(&self, _b: Vec<u8>, _i: u32, _p: PeerIndex) {}
+            async fn process_api_error(&self, _b: Vec<u8>, _i: u32, _p: PeerIndex) {}
+            fn send_interface_event(&self, _event: InterfaceEvent) {}
+            async fn save_wallet(&self, _wallet: &mut Wallet) -> Result<(), Error> {
+                Ok(())
+            }
+            async fn load_wallet(&self, _wallet: &mut Wallet) -> Result<(), Error> {
+                Ok(())
+            }
+            fn get_my_services(&self) -> Vec<PeerService> {
+                vec![]
+            }
+        }
+
+        pub struct Node {
+            pub tester: NodeTester,
+            pub io: RecordingIo,
+        }
+
+        impl Node {
+            /// a node whose routing thread talks to the recording I/O and knows the given connected peers,
+            /// each with a block fetch url
+            pub async fn new(peer_indices: &[PeerIndex]) -> Node {
+                Node::with_clock(peer_indices, None).await
+            }
+            pub async fn with_clock(peer_indices: &[PeerIndex], clock: Option<ManualClock>) -> Node {
+                let timer = clock.map(|clock| Timer {
+                    time_reader: Arc::new(clock),
+                    hasten_multiplier: 1,
+                    start_time: 0,
+                });
+                let mut tester = NodeTester::new(100, None, timer);
+                let io = RecordingIo::default();
+                tester.routing_thread.network.io_interface = Box::new(io.clone());
+                {
+                    let mut peers = tester.routing_thread.network.peer_lock.write().await;
+                    for index in peer_indices {
+                        let mut peer = Peer::new(*index);
+                        peer.peer_status = PeerStatus::Connected;
+                        peer.block_fetch_url = format!("http://peer{}", index);
+                        peers.index_to_peers.insert(*index, peer);
+                    }
+                }
+                Node { tester, io }
+            }
+            /// the peer announces a block: a BlockHeaderHash message arrives from it
+            pub async fn announce(&mut self, peer_index: PeerIndex, hash: SaitoHash, id: BlockId) {
+                self.tester
+                    .routing_thread
+                    .process_network_event(NetworkEvent::IncomingNetworkMessage {
+                        peer_index,
+                        buffer: Message::BlockHeaderHash(hash, id).serialize(),
+                    })
+                    .await;
+            }
+            /// the I/O layer reports that the peer answered the fetch of this block
+            pub async fn fetched(&mut self, peer_index: PeerIndex, hash: SaitoHash, id: BlockId) {
+                self.tester
+                    .routing_thread
+                    .process_network_event(NetworkEvent::BlockFetched {
+                        block_hash: hash,
+                        block_id: id,
+                        peer_index,
+                        buffer: vec![0; 8],
+                    })
+                    .await;
+            }
+            /// the I/O layer reports that the fetch of this block from the peer failed
+            pub async fn failed(&mut self, peer_index: PeerIndex, hash: SaitoHash, id: BlockId) {
+                self.tester
+                    .routing_thread
+                    .process_network_event(NetworkEvent::BlockFetchFailed {
+                        block_hash: hash,
+                        peer_index,
+                        block_id: id,
+                    })
+                    .await;
+            }
+            /// the consensus thread reports that the block is on the chain now
+            pub async fn chain_has(&mut self, hash: SaitoHash) {
+                self.tester
+                    .routing_thread
+                    .process_event(RoutingEvent::BlockchainUpdated(hash))
+                    .await;
+            }
+            /// the 2 s timer of the routing thread fires: one more selection round
+            pub async fn timer_round(&mut self) {
+                self.tester
+                    .routing_thread
+                    .process_timer_event(Duration::from_secs(2))
+                    .await;
+            }
+            /// the block ids of the fetch requests handed to the I/O layer for this peer, in order
+            pub fn requested_ids(&self, peer_index: PeerIndex) -> Vec<BlockId> {
+                self.io
+                    .requests
+                    .lock()
+                    .unwrap()
+                    .iter()
+                    .filter(|(p, _, _)| *p == peer_index)
+                    .map(|(_, _, id)| *id)
+                    .collect()
+            }
+        }
+
+        /// the hash of the demo block with this id on the announced fork
+        pub fn h(id: u64) -> SaitoHash {
+            let mut hash = [0u8; 32];
+            hash[0] = 0xF1;
+            hash[24..32].copy_from_slice(&id.to_be_bytes());
+            hash
+        }
+    }
+
+    /// C16, completeness clause: "every announced block the node lacks is eventually requested unless it
+    /// arrives by another route". The BlockFetched handler of the routing thread returns early when the
+    /// peer's invalid-block limiter is exceeded (and when the peer is unknown): the reply is thrown away, but
+    /// the scheduler entry is neither removed nor marked failed. It stays in state Fetching for ever, counts
+    /// against the quota of that peer index for ever, and blocks every later announcement of the same hash
+    /// (already_exists). Ten such replies and the peer index (a static peer keeps its index across
+    /// reconnects) is never asked for a block again.
+    #[tokio::test]
+    #[serial_test::serial]
+    async fn dropped_reply_does_not_starve_the_peer() {
+        use audit_f16_zombie_support::{h, ManualClock, Node};
+        use std::sync::atomic::{AtomicU64, Ordering};
+        use std::sync::Arc;
+        const T0: u64 = 1_700_000_000_000;
+        const HOUR: u64 = 3_600_000;
+
+        // control: the same peer, same blocks, but the limiter is not exceeded: replies are taken, the
+        // entries leave the queue and what the peer announces afterwards is requested
+        {
+            let clock = ManualClock(Arc::new(AtomicU64::new(T0)));
+            let mut node = Node::with_clock(&[1], Some(clock.clone())).await;
+            for id in 11..=20u64 {
+                node.announce(1, h(id), id).await;
+            }
+            for id in 11..=20u64 {
+                node.fetched(1, h(id), id).await;
+            }
+            clock.0.store(T0 + 2 * HOUR, Ordering::SeqCst);
+            for id in 21..=25u64 {
+                node.announce(1, h(id), id).await;
+            }
+            assert_eq!(node.requested_ids(1), (11..=25u64).collect::<Vec<_>>());
+        }
+
+        let clock = ManualClock(Arc::new(AtomicU64::new(T0)));
+        let mut node = Node::with_clock(&[1], Some(clock.clone())).await;
+
+        // stage A: peer 1 serves 10 blocks (ids 1..=10) which the chain rejects as invalid. every reply is
+        // taken by the BlockFetched handler (limiter not exceeded yet) ...
+        for id in 1..=10u64 {
+            node.announce(1, h(id), id).await;
+        }
+        for id in 1..=10u64 {
+            node.fetched(1, h(id), id).await;
+        }
+        assert_eq!(node.requested_ids(1), (1..=10u64).collect::<Vec<_>>());
+        assert_eq!(
+            node.tester
+                .routing_thread
+                .blockchain_sync_state
+                .get_fetching_block_count(),
+            0
+        );
+        // ... and for each of them Blockchain::add_blocks_from_mempool, on AddBlockResult::FailedNotValid,
+        // does peer.invalid_block_limiter.increase() (blockchain.rs, FailedNotValid arm)
+        {
+            let mut peers = node.tester.routing_thread.network.peer_lock.write().await;
+            let peer = peers.find_peer_by_index_mut(1).unwrap();
+            for _ in 0..10 {
+                peer.invalid_block_limiter.increase();
+            }
+            assert!(peer.has_invalid_block_limit_exceeded(T0));
+        }
+
+        // stage B: one minute later peer 1 announces ids 11..=20; the node requests all 10 (batch size 10)
+        clock.0.store(T0 + 60_000, Ordering::SeqCst);
+        for id in 11..=20u64 {
+            node.announce(1, h(id), id).await;
+        }
+        assert_eq!(node.requested_ids(1), (1..=20u64).collect::<Vec<_>>());
+        // the 10 replies arrive. the handler sees the exceeded limiter, disconnects and returns early
+        for id in 11..=20u64 {
+            node.fetched(1, h(id), id).await;
+        }
+        assert_eq!(node.io.disconnects.lock().unwrap().len(), 10);
+        // all 20 requests made so far have been answered: nothing is in flight at the I/O boundary
+
+        // stage C: two hours later (the limiter window of one hour is over) the peer, a static peer with
+        // the same index 1, is connected again, re-announces 11..=20 and announces 21..=25
+        clock.0.store(T0 + 2 * HOUR, Ordering::SeqCst);
+        {
+            let mut peers = node.tester.routing_thread.network.peer_lock.write().await;
+            let peer = peers.find_peer_by_index_mut(1).unwrap();
+            assert!(!peer.has_invalid_block_limit_exceeded(T0 + 2 * HOUR));
+        }
+        for id in 11..=25u64 {
+            node.announce(1, h(id), id).await;
+        }
+        for _ in 0..5 {
+            node.timer_round().await;
+        }
+        let requested = node.requested_ids(1);
+        let later: Vec<u64> = requested[20..].to_vec();
+        assert!(
+            !later.is_empty(),
+            "peer 1 announced blocks 11..=25 which the node lacks, all 20 earlier requests are answered (0 in flight), yet after 15 announcements and 5 timer rounds not one block was requested (queue length {}): the 10 replies dropped by the invalid-block limiter left 10 entries in state Fetching that hold the whole quota of 10 for ever",
+            node.tester
+                .routing_thread
+                .blockchain_sync_state
+                .get_fetching_block_count()
+        );
+    }
+
+
+/// C16: requests go out in height order — a failed block due for a retry is not overtaken by a higher block (auditor's scenario, round 5; its own recording InterfaceIO)
+#[allow(dead_code, unused)]
+    /// support for the audit demo below: an I/O boundary that records every block-fetch request the
+    /// routing layer hands to it (the harness' TestIOHandler panics with todo!() on fetch_block_from_peer),
+    /// and a routing thread (from NodeTester, batch size 10) whose peers can serve blocks.
+    mod audit_f16_retry_support {
+        use crate::core::consensus::peers::peer::{Peer, PeerStatus};
+        use crate::core::consensus::peers::peer_service::PeerService;
+        use crate::core::consensus::wallet::Wallet;
+        use crate::core::defs::{BlockId, PeerIndex, SaitoHash};
+        use crate::core::io::interface_io::{InterfaceEvent, InterfaceIO};
+        use crate::core::io::network_event::NetworkEvent;
+        use crate::core::msg::message::Message;
+        use crate::core::process::process_event::ProcessEvent;
+        use crate::core::routing_thread::RoutingEvent;
+        use crate::core::util::test::node_tester::test::NodeTester;
+        use async_trait::async_trait;
+        use std::io::Error;
+        use crate::core::defs::Timestamp;
+        use crate::core::process::keep_time::{KeepTime, Timer};
+        use std::sync::atomic::{AtomicU64, Ordering};
+        use std::sync::{Arc, Mutex};
+        use std::time::Duration;
+
+        /// a clock the test sets by hand (NodeTester's default clock runs 10_000 times faster than real time)
+        #[derive(Clone)]
+        pub struct ManualClock(pub Arc<AtomicU64>);
+        impl KeepTime for ManualClock {
+            fn get_timestamp_in_ms(&self) -> Timestamp {
+                self.0.load(Ordering::SeqCst)
+            }
+        }
+
+        #[derive(Debug, Clone, Default)]
+        pub struct RecordingIo {
+            pub requests: Arc<Mutex<Vec<(PeerIndex, SaitoHash, BlockId)>>>,
+            pub disconnects: Arc<Mutex<Vec<PeerIndex>>>,
+        }
+
+        #[async_trait]
+        impl InterfaceIO for RecordingIo {
+            async fn send_message(&self, _peer_index: u64, _buffer: &[u8]) -> Result<(), Error> {
+                Ok(())
+            }
+            async fn send_message_to_all(
+                &self,
+                _buffer: &[u8],
+                _peer_exceptions: Vec<u64>,
+            ) -> Result<(), Error> {
+                Ok(())
+            }
+            async fn connect_to_peer(
+                &mut self,
+                _url: String,
+                _peer_index: PeerIndex,
+            ) -> Result<(), Error> {
+                Ok(())
+            }
+            async fn disconnect_from_peer(&self, peer_index: u64) -> Result<(), Error> {
+                self.disconnects.lock().unwrap().push(peer_index);
+                Ok(())
+            }
+            async fn fetch_block_from_peer(
+                &self,
+                block_hash: SaitoHash,
+                peer_index: u64,
+                _url: &str,
+                block_id: BlockId,
+            ) -> Result<(), Error> {
+                self.requests
+                    .lock()
+                    .unwrap()
+                    .push((peer_index, block_hash, block_id));
+                Ok(())
+            }
+            async fn write_value(&self, _key: &str, _value: &[u8]) -> Result<(), Error> {
+                Ok(())
+            }
+            async fn append_value(&mut self, _key: &str, _value: &[u8]) -> Result<(), Error> {
+                Ok(())
+            }
+            async fn flush_data(&mut self, _key: &str) -> Result<(), Error> {
+                Ok(())
+            }
+            async fn read_value(&self, _key: &str) -> Result<Vec<u8>, Error> {
+                Ok(vec![])
+            }
+            async fn load_block_file_list(&self) -> Result<Vec<String>, Error> {
+                Ok(vec![])
+            }
+            async fn is_existing_file(&self, _key: &str) -> bool {
+                false
+            }
+            async fn remove_value(&self, _key: &str) -> Result<(), Error> {
+                Ok(())
+            }
+            fn get_block_dir(&self) -> String {
+                "./data/blocks/".to_string()
+            }
+            fn get_checkpoint_dir(&self) -> String {
+                "data/checkpoints/".to_string()
+            }
+            fn ensure_block_directory_exists(&self, _block_dir_path: &str) -> std::io::Result<()> {
+                Ok(())
+            }
+            async fn process_api_call(&self, _b: Vec<u8>, _i: u32, _p: PeerIndex) {}
+            async fn process_api_success(&self, _b: Vec<u8>, _i: u32, _p: PeerIndex) {}
+            async fn process_api_error(&self, _b: Vec<u8>, _i: u32, _p: PeerIndex) {}
+            fn send_interface_event(&self, _event: InterfaceEvent) {}
+            async fn save_wallet(&self, _wallet: &mut Wallet) -> Result<(), Error> {
+                Ok(())
+            }
+            async fn load_wallet(&self, _wallet: &mut Wallet) -> Result<(), Error> {
+                Ok(())
+            }
+            fn get_my_services(&self) -> Vec<PeerService> {
+                vec![]
+            }
+        }
+
+        pub struct Node {
+            pub tester: NodeTester,
+            pub io: RecordingIo,
+        }
+
+        impl Node {
+            /// a node whose routing thread talks to the recording I/O and knows the given connected peers,
+            /// each with a block fetch url
+            pub async fn new(peer_indices: &[PeerIndex]) -> Node {
+                Node::with_clock(peer_indices, None).await
+            }
+            pub async fn with_clock(peer_indices: &[PeerIndex], clock: Option<ManualClock>) -> Node {
+                let timer = clock.map(|clock| Timer {
+                    time_reader: Arc::new(clock),
+                    hasten_multiplier: 1,
+                    start_time: 0,
+                });
+                let mut tester = NodeTester::new(100, None, timer);
+                let io = RecordingIo::default();
+                tester.routing_thread.network.io_interface = Box::new(io.clone());
+                {
+                    let mut peers = tester.routing_thread.network.peer_lock.write().await;
+                    for index in peer_indices {
+                        let mut peer = Peer::new(*index);
+                        peer.peer_status = PeerStatus::Connected;
+                        peer.block_fetch_url = format!("http://peer{}", index);
+                        peers.index_to_peers.insert(*index, peer);
+                    }
+                }
+                Node { tester, io }
+            }
+            /// the peer announces a block: a BlockHeaderHash message arrives from it
+            pub async fn announce(&mut self, peer_index: PeerIndex, hash: SaitoHash, id: BlockId) {
+                self.tester
+                    .routing_thread
+                    .process_network_event(NetworkEvent::IncomingNetworkMessage {
+                        peer_index,
+                        buffer: Message::BlockHeaderHash(hash, id).serialize(),
+                    })
+                    .await;
+            }
+            /// the I/O layer reports that the peer answered the fetch of this block
+            pub async fn fetched(&mut self, peer_index: PeerIndex, hash: SaitoHash, id: BlockId) {
+                self.tester
+                    .routing_thread
+                    .process_network_event(NetworkEvent::BlockFetched {
+                        block_hash: hash,
+                        block_id: id,
+                        peer_index,
+                        buffer: vec![0; 8],
+                    })
+                    .await;
+            }
+            /// the I/O layer reports that the fetch of this block from the peer failed
+            pub async fn failed(&mut self, peer_index: PeerIndex, hash: SaitoHash, id: BlockId) {
+                self.tester
+                    .routing_thread
+                    .process_network_event(NetworkEvent::BlockFetchFailed {
+                        block_hash: hash,
+                        peer_index,
+                        block_id: id,
+                    })
+                    .await;
+            }
+            /// the consensus thread reports that the block is on the chain now
+            pub async fn chain_has(&mut self, hash: SaitoHash) {
+                self.tester
+                    .routing_thread
+                    .process_event(RoutingEvent::BlockchainUpdated(hash))
+                    .await;
+            }
+            /// the 2 s timer of the routing thread fires: one more selection round
+            pub async fn timer_round(&mut self) {
+                self.tester
+                    .routing_thread
+                    .process_timer_event(Duration::from_secs(2))
+                    .await;
+            }
+            /// the block ids of the fetch requests handed to the I/O layer for this peer, in order
+            pub fn requested_ids(&self, peer_index: PeerIndex) -> Vec<BlockId> {
+                self.io
+                    .requests
+                    .lock()
+                    .unwrap()
+                    .iter()
+                    .filter(|(p, _, _)| *p == peer_index)
+                    .map(|(_, _, id)| *id)
+                    .collect()
+            }
+        }
+
+        /// the hash of the demo block with this id on the announced fork
+        pub fn h(id: u64) -> SaitoHash {
+            let mut hash = [0u8; 32];
+            hash[0] = 0xF1;
+            hash[24..32].copy_from_slice(&id.to_be_bytes());
+            hash
+        }
+    }
+
+    /// C16, ordering clause: "blocks are requested in non-decreasing height order". When a fetch failed, the
+    /// next selection round turns the entry from Failed to Queued and takes a quota slot for it, but does
+    /// not request it; the same round goes on and requests higher blocks with the rest of the quota. The
+    /// failed lower block goes out one round later, after the higher one.
+    #[tokio::test]
+    #[serial_test::serial]
+    async fn retry_is_not_passed_over_by_a_higher_block() {
+        use audit_f16_retry_support::{h, Node};
+
+        // control: block 1 fails, nothing else changes: block 1 is asked for again (two rounds later) and no
+        // higher block is requested in between
+        {
+            let mut node = Node::new(&[1]).await;
+            for id in 1..=12u64 {
+                node.announce(1, h(id), id).await;
+            }
+            node.failed(1, h(1), 1).await;
+            node.timer_round().await;
+            node.timer_round().await;
+            assert_eq!(
+                node.requested_ids(1),
+                vec![1, 2, 3, 4, 5, 6, 7, 8, 9, 10, 1],
+                "control: the retry of block 1 goes out and nothing overtakes it"
+            );
+        }
+
+        let mut node = Node::new(&[1]).await;
+        for id in 1..=12u64 {
+            node.announce(1, h(id), id).await;
+        }
+        // setup sanity: blocks 1..=10 requested in height order, 11 and 12 wait (batch size 10)
+        assert_eq!(node.requested_ids(1), (1..=10u64).collect::<Vec<_>>());
+
+        // the fetch of block 1 fails, the fetch of block 2 succeeds: two slots of the quota are free, and the
+        // lowest block the node still lacks from this peer is block 1
+        node.failed(1, h(1), 1).await;
+        node.fetched(1, h(2), 2).await; // runs a selection round
+        node.timer_round().await; // and one more
+        node.timer_round().await;
+
+        let requested = node.requested_ids(1);
+        let after_failure: Vec<u64> = requested[10..].to_vec();
+        // sanity: both went out eventually
+        assert!(after_failure.contains(&1) && after_failure.contains(&11));
+        let mut sorted = after_failure.clone();
+        sorted.sort();
+        assert_eq!(
+            after_failure, sorted,
+            "after block 1 failed at peer 1 (2 free slots, block 1 due for retry) the requests went out in the order {:?}: block 11 was requested before the lower block 1, because the round that revived block 1 took a quota slot for it without requesting it and gave the other slot to block 11",
+            after_failure
+        );
+    }
+
